@@ -38,6 +38,7 @@ func init() {
 			{ID: "C11-R12", Title: "the deny-list and the overrides only grow", Floor: 2, Run: deferredTablesOnlyGrow},
 			{ID: "C11-R13", Title: "the error of Config.init reaches the caller of Eval/EvalCode/Call", Floor: 3, Run: initErrorReachesTheCaller},
 			{ID: "C11-R14", Title: "dotted names are resolved one module per element", Floor: 1, Run: pathDescentAdvances},
+			{ID: "C11-R15", Title: "member builtins point back at the module that holds them, unconditionally", Floor: 1, Run: membersPointBackUnconditionally},
 		},
 	})
 }
